@@ -1,5 +1,6 @@
 import TpmVerif.Base.Trace
 import TpmVerif.Model.Frame
+import TpmVerif.Gen.Profile
 /-! Checker for C01 traces: every response is well-formed and (on success) parses exactly under its command's schema;
     where the framing model predicts an error before the command body, the implementation must give that error. -/
 namespace TpmVerif.Check.C01
@@ -8,6 +9,7 @@ open TpmVerif TpmVerif.Model.Frame
 structure CS where
   rep : Report := {}
   line : Nat := 0
+  profile : Nat := 0     -- 0 null (StateFormatLevel 1), 1 default-v1, 2 custom
 
 def mism (c : CS) (msg : String) : CS :=
   { c with rep := { c.rep with mismatches := c.rep.mismatches ++ [s!"line {c.line}: {msg}"] } }
@@ -16,6 +18,7 @@ def branch (c : CS) (b : String) : CS :=
 
 def step (c : CS) (l : Line) : CS :=
   let c := { c with line := c.line + 1 }
+  if l.kind = "hist" then { c with profile := (l.nat? "profile").getD 0 } else
   if l.kind ≠ "x" then c else
   let c := { c with rep := { c.rep with events := c.rep.events + 1 } }
   let req := l.bytes "req"; let rsp := l.bytes "rsp"
@@ -28,7 +31,12 @@ def step (c : CS) (l : Line) : CS :=
     | none => c
   -- correspondence of the header checks
   match frameCheck req (l.nat "started" = 1) with
-  | some e => if rc ≠ e then mism c s!"SPEC[frame-rc] header check: model rc={e} impl rc={rc} req={hexOfBytes (req.take 16)}" else branch c s!"frame/{e}"
+  | some e =>
+    -- a command the active profile does not enable is TPM_RC_COMMAND_CODE before anything else (the null profile runs
+    -- at StateFormatLevel 1: commands that need a higher level are not part of it)
+    let profileDisabled : Bool := c.profile == 0 && (match Gen.Profile.cmdProps.find? (·.1 == cc) with | some (_, _, _, sfl) => decide (sfl > 1) | none => false)
+    if profileDisabled ∧ rc = Gen.TPM_RC_COMMAND_CODE then branch c "frame/disabled-by-profile" else
+    if rc ≠ e then mism c s!"SPEC[frame-rc] header check: model rc={e} impl rc={rc} req={hexOfBytes (req.take 16)}" else branch c s!"frame/{e}"
   | none => c
 
 def check (ls : List Line) : Report := (ls.foldl step {}).rep
